@@ -37,7 +37,7 @@ St0 == [open |-> FALSE, paused |-> FALSE, base |-> [phase |-> "none"], writes |-
 TraceInit == l = 1 /\ st = St0 /\ viol = <<>> /\ ntr = 0 /\ done = FALSE
 
 GuardOf(call) == IF call = "pass" THEN "G_C18_ProvisionFrame" ELSE "G_C18_SimulationFrame"
-LenientOf(call) == IF call = "pass" THEN PassAllowed ELSE SimLenient
+LenientOf(call) == IF call = "pass" THEN PassAllowed ELSE IF call = "method-reserving" THEN ReservingLenient ELSE SimLenient
 
 RECURSIVE SetToSeq(_)
 SetToSeq(S) == IF S = {} THEN <<>> ELSE LET x == CHOOSE y \in S : TRUE IN <<x>> \o SetToSeq(S \ {x})
@@ -54,6 +54,7 @@ Judge(skipX) ==
         all(i) == IF i > Len(SecOrder) THEN <<>> ELSE secFails(SecOrder[i]) \o all(i + 1)
         wr == [i \in DOMAIN st.writes |-> [line |-> l, guard |-> g, sig |-> st.writes[i]]]
         ok == IF st.call = "pass" THEN G_C18_ProvisionFrame(st.base, post, st.writes)
+              ELSE IF st.call = "method-reserving" THEN FrameHolds(st.base, post, st.writes, ReservingLenient)
               ELSE G_C18_SimulationFrame(st.base, post, st.writes)
     IN IF ~st.open \/ st.paused THEN <<>>
        ELSE IF ok /\ ~skipX THEN <<>>                         \* the guard itself
